@@ -2,13 +2,13 @@
    Part 1: the per-connection sent storage (Model/Storage.v, iscp/storage.go).
    Part 2: the routing tables of the wire connection (Model/Route.v, wire/client_conn.go). *)
 From Coq Require Import List NArith Bool.
-From Iscp Require Import Lib.ListMap Model.Upstream Model.Storage Proofs.StorageProofs.
+From Iscp Require Import Lib.ListMap Model.Upstream Model.Storage Proofs.StorageProofs Model.Route Proofs.RouteProofs.
 Import ListNotations.
 Open Scope N_scope.
 
 (* ---------------------------------------------------------------- storage *)
 
-(* Non-interference, relational form, REPAIRED Clear (delete of one key): for both storage
+(* Non-interference, relational form, for the code as it is (Clear deletes one key): for both storage
    variants, every stream b and any two operation histories whose operations addressed to b
    coincide - whatever else is done to other streams, in any interleaving - List b returns the
    same map at the end and every operation addressed to b returned the same result. *)
@@ -22,7 +22,7 @@ Proof.
 Qed.
 Print Assumptions c07_storage_noninterference.
 
-(* Projection = solo run (repaired Clear): what stream b observes in a shared storage is what it
+(* Projection = solo run: what stream b observes in a shared storage is what it
    observes in a storage used by b alone. *)
 Theorem c07_storage_projection : forall keep b ops,
   lookup b (fst (srun ClearRepaired keep [] ops)) = lookup b (fst (srun ClearRepaired keep [] (proj_ops b ops))) /\
@@ -31,32 +31,33 @@ Proof. intros keep b ops. exact (run_projection ClearRepaired keep b ops [] [] (
 Print Assumptions c07_storage_projection.
 
 (* The statement of the property text, one step: for streams a <> b, an operation addressed to a
-   leaves List b unchanged - in every state, for the repaired Clear. *)
+   leaves List b unchanged - in every state. *)
 Theorem c07_storage_step : forall keep st o b,
   sop_stream o <> b -> st_list b (fst (sstep ClearRepaired keep st o)) = st_list b st.
 Proof. intros keep st o b. exact (step_list_unchanged ClearRepaired keep st o b (or_introl eq_refl)). Qed.
 Print Assumptions c07_storage_step.
 
-(* TODAY's code: the same non-interference holds on every history that contains no Clear ... *)
-Theorem c07_storage_noninterference_today_clearfree : forall keep b ops1 ops2,
+(* The FORMER code (Clear replaced the whole map, F3, fixed in /repo 0f97a0d): the same
+   non-interference held on every history that contains no Clear ... *)
+Theorem c07_storage_noninterference_former_clearfree : forall keep b ops1 ops2,
   clear_free ops1 = true -> clear_free ops2 = true -> proj_ops b ops1 = proj_ops b ops2 ->
-  st_list b (fst (srun ClearToday keep [] ops1)) = st_list b (fst (srun ClearToday keep [] ops2)) /\
-  proj_res b ops1 (snd (srun ClearToday keep [] ops1)) = proj_res b ops2 (snd (srun ClearToday keep [] ops2)).
+  st_list b (fst (srun ClearFormer keep [] ops1)) = st_list b (fst (srun ClearFormer keep [] ops2)) /\
+  proj_res b ops1 (snd (srun ClearFormer keep [] ops1)) = proj_res b ops2 (snd (srun ClearFormer keep [] ops2)).
 Proof.
   intros keep b ops1 ops2 H1 H2.
-  exact (run_noninterference ClearToday keep b ops1 ops2 (or_intror H1) (or_intror H2)).
+  exact (run_noninterference ClearFormer keep b ops1 ops2 (or_intror H1) (or_intror H2)).
 Qed.
-Print Assumptions c07_storage_noninterference_today_clearfree.
+Print Assumptions c07_storage_noninterference_former_clearfree.
 
-(* ... and is REFUTED by today's Clear (finding F3): Clear of stream 1 empties stream 2. *)
-Theorem c07_storage_noninterference_refuted :
+(* ... and was REFUTED by the former Clear (finding F3): Clear of stream 1 emptied stream 2. *)
+Theorem c07_storage_former_clear_refuted :
   exists keep st o b,
-    sop_stream o <> b /\ st_list b (fst (sstep ClearToday keep st o)) <> st_list b st.
-Proof. exact clear_today_refuted. Qed.
-Print Assumptions c07_storage_noninterference_refuted.
+    sop_stream o <> b /\ st_list b (fst (sstep ClearFormer keep st o)) <> st_list b st.
+Proof. exact clear_former_refuted. Qed.
+Print Assumptions c07_storage_former_clear_refuted.
 
 (* The predicate judged on the implementation's observations (c07_storage_ok) is true of every
-   run of the repaired model, and false on the F3 witness that today's model and code produce. *)
+   run of the model of the code, and false on the F3 witness that the former model produces. *)
 Theorem c07_storage_ok_model : forall keep ids ops,
   c07_walk ids ops (map (fun _ => RNoStream) ids) (srun_snaps ClearRepaired keep ids [] ops) = true.
 Proof.
@@ -65,9 +66,12 @@ Proof.
 Qed.
 Print Assumptions c07_storage_ok_model.
 
-Theorem c07_storage_ok_refuted : st_corr f3_case = true /\ c07_storage_ok f3_case = false.
+Theorem c07_storage_ok_former_refuted :
+  sc_res f3_case = snd (srun ClearFormer true [] (sc_ops f3_case)) /\
+  sc_snaps f3_case = srun_snaps ClearFormer true (sc_ids f3_case) [] (sc_ops f3_case) /\
+  c07_storage_ok f3_case = false.
 Proof. exact storage_ok_refuted. Qed.
-Print Assumptions c07_storage_ok_refuted.
+Print Assumptions c07_storage_ok_former_refuted.
 
 (* non-vacuity: two streams interleaved, a removal, a Clear of the other stream *)
 Example c07_storage_example :
@@ -75,6 +79,58 @@ Example c07_storage_example :
   let ops := [SStore 1 1 g1; SStore 2 1 g2; SStore 1 2 g2; SRemove 1 1; SClear 1; SList 2] in
   proj_ops 2 ops = [SStore 2 1 g2; SList 2] /\
   snd (srun ClearRepaired true [] ops) = [RNil; RNil; RNil; RGroups g1; RNil; RList [(1, g2)]] /\
-  snd (srun ClearToday true [] ops) = [RNil; RNil; RNil; RGroups g1; RNil; RNoStream] /\
+  snd (srun ClearFormer true [] ops) = [RNil; RNil; RNil; RGroups g1; RNil; RNoStream] /\
   snd (srun ClearRepaired false [] [SStore 2 1 g2; SList 2]) = [RNil; RList [(1, [(2, [(2, 0, 0); (3, 0, 0)])])]].
 Proof. vm_compute. repeat split. Qed.
+
+(* ---------------------------------------------------------------- routing tables *)
+
+(* Dispatch: a message of kind k (ack, chunk, unreliable chunk, ack-complete) addressed to alias x
+   is handed to the channel registered under x in the table of kind k - no other channel. *)
+Theorem c07_routing_deliver : forall s k x ch,
+  snd (Route.rstep s (Recv k x)) = Deliver ch -> lookup x (tbl k s) = Some ch.
+Proof. exact route_deliver. Qed.
+Print Assumptions c07_routing_deliver.
+
+Theorem c07_routing_deliver_meta : forall s x node ch,
+  snd (Route.rstep s (RecvMeta x node)) = Deliver ch ->
+  exists m, lookup x (t_meta s) = Some m /\ lookup node m = Some ch.
+Proof. exact route_deliver_meta. Qed.
+Print Assumptions c07_routing_deliver_meta.
+
+(* Frame: whatever operation is addressed to alias a (open, resume, subscribe, dispatch, or the
+   close of the stream whose alias is a), the entries of every other alias x in every alias-keyed
+   table (ack channel, writer, chunk channels, ack-complete channel, metadata channels) are
+   unchanged: opening, resuming or closing one stream never re-routes another. *)
+Theorem c07_routing_frame : forall s o a x,
+  op_alias s o = Some a -> x <> a -> at_alias x (fst (Route.rstep s o)) = at_alias x s.
+Proof. exact route_frame. Qed.
+Print Assumptions c07_routing_frame.
+
+(* Close removes only the closing stream's entries from the stream-id tables as well. *)
+Theorem c07_routing_frame_ids : forall s o sid',
+  (forall sid a u h, o = OpenUp sid a u h -> sid <> sid') -> (forall sid, o = CloseUp sid -> sid <> sid') ->
+  (forall sid a, o = DnAlias sid a -> sid <> sid') -> (forall sid, o = CloseDn sid -> sid <> sid') ->
+  lookup sid' (t_upalias (fst (Route.rstep s o))) = lookup sid' (t_upalias s) /\
+  lookup sid' (t_dnalias (fst (Route.rstep s o))) = lookup sid' (t_dnalias s).
+Proof. exact route_frame_ids. Qed.
+Print Assumptions c07_routing_frame_ids.
+
+(* Channels are never shared: in every reachable state a channel just created is registered under
+   no alias of any table - so the subscriber of x is the only holder of the channel x routes to. *)
+Theorem c07_routing_fresh : forall ops o ch,
+  let s := fst (rrun_rt rt_init ops) in
+  snd (Route.rstep s o) = Created ch -> forall k x, lookup x (tbl k s) <> Some ch.
+Proof. intros ops o ch s. apply created_is_new. apply fresh_run, fresh_init. Qed.
+Print Assumptions c07_routing_fresh.
+
+(* non-vacuity: two upstreams and a downstream; an ack for alias 2 goes to stream 2's channel;
+   closing stream 10 (alias 1) leaves alias 2 routed; a metadata message from an unsubscribed
+   node reaches nobody and later subscriptions and dispatches go on (F6 fixed) *)
+Example c07_routing_example :
+  snd (rrun_rt rt_init [OpenUp 10 1 false false; OpenUp 20 2 true false; SubChunk 5 false false; DnAlias 30 5;
+                        Recv KAck 2; CloseUp 10; Recv KAck 1; Recv KAck 2; Recv KChunk 5;
+                        SubMeta 5 7; RecvMeta 5 8; RecvMeta 5 7; SubAckC 5; Recv KChunk 5; CloseDn 30; Recv KChunk 5])
+  = [Created 0; Created 1; Created 2; Done; Deliver 1; Done; Nobody; Deliver 1; Deliver 2;
+     Created 3; Nobody; Deliver 3; Created 4; Deliver 2; Done; Nobody].
+Proof. vm_compute. reflexivity. Qed.
